@@ -180,4 +180,214 @@ theorem closedP_of_cn (H : Hyp a T) (M P : List Word) (x : Word) (Lw : Nat) (hLw
       rw [this] at h2
       simpa only [List.append_assoc] using h2
 
+
+theorem take_succ_snoc (bw : List Word) (k : Nat) (hk : k < bw.length) : bw.take (k+1) = bw.take k ++ [bw[k]] :=
+  List.take_succ_eq_append_getElem hk
+
+/-- **one `RevealBefore` call** (word `k` of the preceding fragment's right state, `reveal_full = false`) -/
+theorem revealBefore_step (H : Hyp a T) (R : Ptr → Rat) {B M : List Word} {Lb : Nat} {cB : Chart} {pB pM : Rat}
+    (GB : FragC a T R B Lb cB pB) {k Lk : Nat} {left : LeftSt} {right : State} {acc : Rat}
+    (I : PB a T R M pM B.reverse k Lk left right acc) (hk : k < cB.right.length) :
+    ∃ Lk', PB a T R M pM B.reverse (k+1) Lk'
+      (revealBefore T R { cB.right with length := k + 1 } k false left right).2.1
+      (revealBefore T R { cB.right with length := k + 1 } k false left right).2.2
+      (acc + (revealBefore T R { cB.right with length := k + 1 } k false left right).1) := by
+  have hord : T.order = a.order := H.tf.order_eq
+  have hN2 := H.wf.order_ge
+  have sfB := GB.right_for
+  generalize hbw : B.reverse = bw at I sfB ⊢
+  have hnb : cB.right.length ≤ bw.length := sfB.len_le_h
+  have hnbN : cB.right.length ≤ a.order - 1 := sfB.len_le_N
+  have hkb : k < bw.length := by omega
+  have hP' : bw.take (k+1) = bw.take k ++ [bw[k]] := take_succ_snoc bw k hkb
+  have hPl : (bw.take k).length = k := by rw [List.length_take]; omega
+  have hwords : cB.right.words.take (k+1) = bw.take (k+1) := by
+    have e : cB.right.words.take (k+1) = (cB.right.words.take cB.right.length).take (k+1) := by
+      rw [List.take_take, Nat.min_eq_left (by omega)]
+    rw [e, sfB.words, List.take_take, Nat.min_eq_left (by omega)]
+  have hbacks : (cB.right.backoff.take (k+1)).drop k = [a.boW (bw.take (k+1))] := by
+    have e : cB.right.backoff.take (k+1) = (cB.right.backoff.take cB.right.length).take (k+1) := by
+      rw [List.take_take, Nat.min_eq_left (by omega)]
+    rw [e, sfB.backoff, ← List.map_take, List.take_range, Nat.min_eq_left (by omega), List.range_succ, List.map_append,
+      List.drop_append_of_le_length (by simp), List.drop_of_length_le (by simp)]
+    rfl
+  generalize hx : bw[k] = x at hP'
+  -- the revealed word and its back-off
+  have hadd : (({ cB.right with length := k + 1 } : State).words.take (k+1)).drop k = [x] := by
+    show (cB.right.words.take (k+1)).drop k = [x]
+    rw [hwords, hP', List.drop_append_of_le_length (by omega), List.drop_of_length_le (by omega)]
+    rfl
+  have hbo : (({ cB.right with length := k + 1 } : State).backoff.take (k+1)).drop k = [a.boW (bw.take (k+1))] := hbacks
+  have C : LoopCtx a T M (bw.take k) [x] Lk 1 :=
+    ⟨I.Lk_le, I.xl, by rw [hPl]; exact I.bound, by simp⟩
+  have I0 : InvL a M (bw.take k) [x] 1 0 { nextUse := 1, backIn := [a.boW (bw.take (k+1))].take 1 } := by
+    refine ⟨Nat.le_refl _, by rw [hPl]; show 0 + k + 1 + 1 ≤ a.order; omega, ?_, fun kk h1 h2 => by
+      have h1' : 1 < kk := h1
+      simp at h2; omega⟩
+    show ([a.boW (bw.take (k+1))].take 1).take 1 = _
+    simp [gm1, hP']
+  obtain ⟨Lw, s1, s2, s3, s4, s5, s6, s7, s8, s9⟩ :=
+    extendLoop_sem H R C k 0 (by rw [hPl]; simp) (Nat.zero_le _) [a.boW (bw.take (k+1))] I0 true (fun _ => by simp)
+  have hptrs0 : left.pointers = ((List.range Lk).map (fun i => pre M i ++ (bw.take k))).drop 0 := by rw [I.ptrs]; rfl
+  unfold revealBefore
+  dsimp only
+  rw [hadd, hbo, hptrs0]
+  simp only [Bool.not_false]
+  have htk : ([x] : List Word).take 1 = [x] := rfl
+  rw [htk] at s4 s7 s8 s9
+  generalize extendLoop T R k [x] [a.boW (bw.take (k+1))] (((List.range Lk).map (fun i => pre M i ++ (bw.take k))).drop 0) true = v
+    at s4 s7 s8 s9 ⊢
+  simp only [Bool.false_eq_true, if_false]
+  have hext : ∀ i, pre M i ++ (bw.take k) ++ [x] = pre M i ++ bw.take (k+1) := by intro i; rw [hP', List.append_assoc]
+  have hwritten : v.written = (List.range Lw).map (fun i => pre M i ++ bw.take (k+1)) := by
+    rw [s4]; simp only [List.drop_zero]
+    apply List.map_congr_left; intro i _; exact hext i
+  have hxl' : ∀ i, i < Lw → T.xl (pre M i ++ bw.take (k+1)) = true := by
+    intro i hi; rw [← hext i]; exact s5 i (Nat.zero_le _) hi
+  have hbound' : Lw + (k+1) ≤ a.order - 1 := by
+    by_cases hpos : 0 < Lw
+    · have := s6 hpos; rw [hPl] at this; simp only [List.length_singleton] at this; omega
+    · omega
+  have hLwM : Lw ≤ M.length := by have := I.Lk_le; omega
+  have hnu1 : v.nextUse ≤ 1 := s7.nu_le
+  -- the score bookkeeping, up to the part after the old left state
+  have hscore : ∀ tailAdj : Rat,
+      specSeq a (gm1 M Lk ++ (bw.take k)) (M.drop Lk) + tailAdj = specSeq a (gm1 M Lk ++ bw.take (k+1)) (M.drop Lk) →
+      pM + (acc + (v.adjust + tailAdj)) = psum R M (bw.take (k+1)) Lw + specSeq a (gm1 M Lw ++ bw.take (k+1)) (M.drop Lw) := by
+    intro tailAdj htail
+    have hsp := specSeq_drop_split (a := a) M (bw.take (k+1)) (Lk - Lw) Lw (by have := I.Lk_le; omega)
+    have e1 : Lw + (Lk - Lw) = Lk := by omega
+    rw [e1] at hsp
+    rw [hsp, ← htail, s8]
+    have hsc := I.score
+    have hps : psum R M (bw.take k) Lk = dsum (fun i => R (pre M i ++ (bw.take k))) 0 Lw + dsum (fun i => R (pre M i ++ (bw.take k))) Lw (Lk - Lw) := by
+      unfold psum
+      have := dsum_add (fun i => R (pre M i ++ (bw.take k))) Lw (Lk - Lw) 0
+      rw [e1, Nat.zero_add] at this
+      exact this
+    have ho : dsum (openTerm R M (bw.take k) [x]) 0 (Lw - 0) = psum R M (bw.take (k+1)) Lw - dsum (fun i => R (pre M i ++ (bw.take k))) 0 Lw := by
+      unfold psum
+      rw [Nat.sub_zero, ← dsum_sub]
+      apply dsum_congr
+      intro j _ _
+      simp only [openTerm, hext]
+    have hd : dsum (doneTerm a R M (bw.take k) [x]) Lw (Lk - Lw) =
+        dsum (fun i => score a (gm1 M i ++ bw.take (k+1)) (M.getD i 0)) Lw (Lk - Lw) - dsum (fun i => R (pre M i ++ (bw.take k))) Lw (Lk - Lw) := by
+      rw [← dsum_sub]
+      apply dsum_congr
+      intro j _ _
+      simp only [doneTerm, hP', List.append_assoc]
+    rw [ho, hd]
+    have hsc' : pM + acc = psum R M (bw.take k) Lk + specSeq a (gm1 M Lk ++ (bw.take k)) (M.drop Lk) := hsc
+    rw [hps] at hsc'
+    grind
+  have hLkdrop : Lk = M.length → ∀ ctx, specSeq a ctx (M.drop Lk) = 0 := by
+    intro h1 ctx; rw [h1, List.drop_eq_nil_of_le (Nat.le_refl _)]; rfl
+  by_cases hfull : left.full = true
+  · -- complete already: the back-offs of the new contexts go to the first word after the left state
+    simp only [hfull, if_true]
+    have hback : (v.backIn.take v.nextUse).sum = rsum (fun j => a.boW (gm1 M Lk ++ (bw.take k) ++ [x].take (j+1))) 0 v.nextUse := by
+      rw [s7.back, sum_range_map]
+    have htail : specSeq a (gm1 M Lk ++ (bw.take k)) (M.drop Lk) + (v.backIn.take v.nextUse).sum =
+        specSeq a (gm1 M Lk ++ bw.take (k+1)) (M.drop Lk) := by
+      rw [hback, hP', ← List.append_assoc]
+      rcases I.closed hfull with ⟨h1, h2⟩ | ⟨h1, j, hj1, hj2, h3⟩ | ⟨h1, h2⟩
+      · exact (tail_aP H M (bw.take k) [x] Lk v.nextUse h1 (by have := s7.hN; omega) (by simpa using hnu1) h2 s7.dead).symm
+      · rw [hLkdrop h1, hLkdrop h1]
+        have hz : rsum (fun j => a.boW (gm1 M Lk ++ (bw.take k) ++ [x].take (j+1))) 0 v.nextUse = 0 := by
+          apply rsum_zero
+          intro i _ hi
+          apply boW_zero_of_dead
+          have hg : gm1 M Lk = M.reverse := by unfold gm1; rw [h1, List.take_of_length_le (Nat.le_refl _)]
+          rw [hg]
+          have hne : (M.reverse ++ (bw.take k)).take j ≠ [] := take_ne_nil hj1 (by simpa using hj2)
+          have := H.dead_of_not_xr hne h3 ((M.reverse ++ (bw.take k)).drop j ++ [x].take (i+1))
+          rwa [← List.append_assoc, List.take_append_drop] at this
+        rw [hz]; grind
+      · have : v.nextUse = 0 := by have := s7.hN; rw [hord] at h2; omega
+        rw [this, hLkdrop h1, hLkdrop h1]; simp [rsum] <;> grind
+    have hcl : ClosedP T M (bw.take (k+1)) Lw := by
+      rw [hP']
+      rcases s9 with ⟨m1, m2⟩ | ⟨_, _, m3⟩
+      · obtain ⟨m3, _⟩ := m2 rfl
+        -- every pointer was extended by the whole new word: the old reason carries over
+        rw [m3]
+        rcases I.closed hfull with ⟨h1, h2⟩ | ⟨h1, j, hj1, hj2, h3⟩ | ⟨h1, h2⟩
+        · left
+          refine ⟨h1, fun y => ?_⟩
+          have := lookup_none_extend H.ok [y] _ (by rw [pre_cons_P M (bw.take k) Lk h1]; simp) (h2 x)
+          simpa only [List.append_assoc] using this
+        · right; left
+          refine ⟨h1, j, hj1, by simp; omega, ?_⟩
+          rw [← List.append_assoc, List.take_append_of_le_length (by simpa using hj2)]; exact h3
+        · rw [hord] at h2
+          by_cases hpos : 0 < Lw
+          · have := s6 hpos; rw [hPl] at this; simp at this; omega
+          · omega
+      · exact closedP_of_cn H M (bw.take k) x Lw hLwM m3
+    refine ⟨Lw, ⟨hwritten, hxl', hLwM, hbound', hscore _ htail, (fun hc => by cases hc), fun _ => hcl⟩⟩
+  · have hopen : left.full = false := by simpa using hfull
+    obtain ⟨o1, o2, o3, o4⟩ := I.open_ hopen
+    simp only [hopen, Bool.false_eq_true, if_false]
+    have htail : specSeq a (gm1 M Lk ++ (bw.take k)) (M.drop Lk) + 0 = specSeq a (gm1 M Lk ++ bw.take (k+1)) (M.drop Lk) := by
+      rw [hLkdrop o1, hLkdrop o1]; grind
+    have hsc := hscore 0 htail
+    refine ⟨Lw, ⟨hwritten, hxl', hLwM, hbound', by rw [← hsc]; grind, ?_, ?_⟩⟩
+    · intro hc
+      have hc' : ((v.makeFull || v.written.length == T.order - 1) || (right.length + v.nextUse) == T.order - 1) = false := hc
+      simp only [Bool.or_eq_false_iff] at hc'
+      obtain ⟨⟨hc1, _⟩, _⟩ := hc'
+      rcases s9 with ⟨_, m2⟩ | ⟨m1, _⟩
+      · obtain ⟨m3, m4⟩ := m2 rfl
+        have hg : gm1 M Lk = M.reverse := by unfold gm1; rw [o1, List.take_of_length_le (Nat.le_refl _)]
+        have hb1 : v.backIn.take 1 = [a.boW (M.reverse ++ bw.take (k+1))] := by
+          have := s7.back
+          rw [m4, hg] at this
+          rw [this, hP']; simp
+        refine ⟨by omega, by show right.length + v.nextUse = _; rw [m4, o2]; omega, ?_, ?_⟩
+        · show (right.words.take right.length ++ [x].take v.nextUse).take (right.length + v.nextUse) = _
+          rw [m4, o3, hP']
+          have hl : (M.reverse ++ (bw.take k) ++ [x].take 1).length = right.length + 1 := by simp [hPl, o2]; omega
+          rw [List.take_of_length_le (by omega)]; simp
+        · show (right.backoff.take right.length ++ v.backIn.take v.nextUse).take (right.length + v.nextUse) = _
+          rw [m4, o4, hb1]
+          have hlenfull : (M.reverse ++ bw.take (k+1)).length = M.length + k + 1 := by
+            rw [hP']; simp only [List.length_append, List.length_reverse, hPl, List.length_singleton]; omega
+          have hl : ((List.range (M.length + k)).map (fun j => a.boW ((M.reverse ++ bw.take k).take (j+1))) ++
+              [a.boW (M.reverse ++ bw.take (k+1))]).length = right.length + 1 := by simp [o2]
+          rw [List.take_of_length_le (by omega)]
+          have hsame : ∀ j, j < M.length + k →
+              (M.reverse ++ bw.take (k+1)).take (j+1) = (M.reverse ++ bw.take k).take (j+1) := by
+            intro j hj
+            rw [hP', ← List.append_assoc, List.take_append_of_le_length (by
+              simp only [List.length_append, List.length_reverse, hPl]; omega)]
+          have hlast : (M.reverse ++ bw.take (k+1)).take (M.length + k + 1) = M.reverse ++ bw.take (k+1) :=
+            List.take_of_length_le (by omega)
+          have e : M.length + (k+1) = (M.length + k) + 1 := by omega
+          rw [e, List.range_succ, List.map_append]
+          congr 1
+          · apply List.map_congr_left
+            intro j hj
+            have hj' : j < M.length + k := by simpa using hj
+            rw [hsame j hj']
+          · simp only [List.map_cons, List.map_nil]
+            rw [hlast]
+      · rw [m1] at hc1; cases hc1
+    · intro hc
+      have hc' : ((v.makeFull || v.written.length == T.order - 1) || (right.length + v.nextUse) == T.order - 1) = true := hc
+      rw [hP']
+      rcases s9 with ⟨m1, m2⟩ | ⟨_, _, m3⟩
+      · obtain ⟨m3, m4⟩ := m2 rfl
+        right; right
+        refine ⟨by omega, ?_⟩
+        rw [m1, hwritten] at hc'
+        simp only [Bool.false_or, Bool.or_eq_true, beq_iff_eq, List.length_map, List.length_range] at hc'
+        simp only [List.length_append, hPl, List.length_singleton]
+        rcases hc' with hc' | hc'
+        · rw [hord] at hc'
+          have := hbound'
+          omega
+        · rw [m4, o2] at hc'; omega
+      · exact closedP_of_cn H M (bw.take k) x Lw hLwM m3
+
 end KV.Left
